@@ -152,6 +152,44 @@ func gen(seed int64, n int, tier string) []interface{} {
 				files = append(files, f)
 			}
 		}
+		// an interface whose default method has a parameter named like a field of a class of another file, of a different
+		// type, and calls a method on it: whatever table the class file left behind must not type that receiver
+		if r.Intn(3) == 0 {
+			for i := range files {
+				f := &files[i]
+				if f.Unit.Kind != "class" {
+					continue
+				}
+				fname := ""
+				for _, m := range f.Unit.Members {
+					if m.Kind == "field" {
+						fname = m.Name
+						break
+					}
+				}
+				if fname == "" {
+					fname = "carrier"
+					f.Unit.Members = append([]javagen.Member{{Kind: "field", Name: fname, Type: "Truck", Params: []javagen.Param{}, Mods: []string{"private"},
+						Anns: []javagen.Ann{}, Body: []javagen.Stmt{}, Throws: []string{}}}, f.Unit.Members...)
+				}
+				e := javagen.Expr{K: "call", RecvKind: "var", Recv: fname, Callee: "load", Args: []javagen.Expr{}}
+				dm := javagen.Member{Kind: "method", Name: "ship", Type: "void", Params: []javagen.Param{{Type: "Carrier", Name: fname}}, Mods: []string{"default"},
+					Anns: []javagen.Ann{}, Body: []javagen.Stmt{{K: "expr", E: &e}}, Throws: []string{}}
+				placed := false
+				for j := range files {
+					if files[j].Unit.Kind == "interface" {
+						files[j].Unit.Members = append(files[j].Unit.Members, dm)
+						placed = true
+						break
+					}
+				}
+				if !placed {
+					files = append(files, javagen.File{Id: "shipping", PathKind: "main", Pkg: "zz.shipping", Imports: []javagen.Import{{Pkg: "com.acme.fleet", Name: "Carrier"}},
+						Unit: javagen.Unit{Kind: "interface", Name: "Shipping", Impls: []string{}, Anns: []javagen.Ann{}, Members: []javagen.Member{dm}}})
+				}
+				break
+			}
+		}
 		all := []int{}
 		for i := range files {
 			all = append(all, i+1)
